@@ -287,10 +287,15 @@ class Exec:
         node = self.tree
         for part in qual.split("."):
             found = None
-            for n in ast.walk(node) if node is self.tree else ast.iter_child_nodes(node):
-                if isinstance(n, (ast.FunctionDef, ast.ClassDef)) and n.name == part:
-                    found = n
-                    break
+            # Python binds a name to its LAST definition in a body: a later `def` of the same name replaces an earlier one
+            direct = [n for n in getattr(node, "body", []) if isinstance(n, (ast.FunctionDef, ast.ClassDef)) and n.name == part]
+            if direct:
+                found = direct[-1]
+            else:
+                for n in ast.walk(node) if node is self.tree else ast.iter_child_nodes(node):
+                    if isinstance(n, (ast.FunctionDef, ast.ClassDef)) and n.name == part:
+                        found = n
+                        break
             if found is None:  # search deeper (decorated / nested under statements)
                 for n in ast.walk(node):
                     if isinstance(n, (ast.FunctionDef, ast.ClassDef)) and n.name == part and n is not node:
@@ -1481,6 +1486,10 @@ def module_constants(tree: ast.Module) -> dict:
     return out
 
 
+# decorators that do not change what a call of the decorated function computes (or whose effect the sidecars model explicitly)
+ALLOWED_DECORATORS = {"staticmethod", "classmethod", "property", "wraps", "abstractmethod", "override", "dispatch"}
+
+
 def verify_function(ex: Exec, qual: str, setup: Callable, post: Callable, *, closure_env: dict | None = None,
                     concretize: Callable | None = None):
     """Generate the obligations of one function against its sidecar contract.
@@ -1489,6 +1498,16 @@ def verify_function(ex: Exec, qual: str, setup: Callable, post: Callable, *, clo
     post(ex, ctx, outcome, info) -> iterable of (clause_name, z3 goal): the postcondition for this path's outcome
     Returns the number of paths explored (vacuity guard: must be >= 1)."""
     node = ex.find_def(qual)
+    # decorators wrap the function that actually runs: only those whose effect is modelled (or none) may sit on a function under contract
+    for d in getattr(node, "decorator_list", []):
+        dn = ast.unparse(d.func if isinstance(d, ast.Call) else d)
+        if dn.split(".")[-1] not in ALLOWED_DECORATORS:
+            raise GenError(f"{qual} is decorated with @{ast.unparse(d)}: the body alone is no longer what runs (decorator not modelled)")
+    top = qual.split(".")[0]
+    for st in ex.tree.body:
+        tg = st.targets if isinstance(st, ast.Assign) else [st.target] if isinstance(st, (ast.AnnAssign, ast.AugAssign)) else []
+        if any(isinstance(t, ast.Name) and t.id == top for t in tg):
+            raise GenError(f"module-level name {top!r} is re-bound by an assignment at line {st.lineno}: the `def` under contract is not what the name refers to")
     ex.fn_node, ex.fn_lineno, ex.current_fn = node, node.lineno, qual
     ctx = Ctx(env=dict(closure_env or {}))
     ex.default_concretize = concretize
